@@ -18,6 +18,7 @@ for id in $ids; do
   if ! git -C $wt apply $PWD/seeded/$id/patch.diff; then echo "$id: PATCH DOES NOT APPLY"; git -C /repo worktree remove --force $wt; continue; fi
   out=$(VERIF_REPO=$wt ./vcheck.sh $prop quick 2>&1); rc=$?
   nv=$(echo "$out" | grep -c '^VIOLATION')
+  [ "$id" = C28h ] && echo "  (C28h: expected exit 0 - a recorded miss: store/load of a field of a shared predeclared object, DESIGN 12 wave 10)"
   [ "$id" = C26d ] && echo "  (C26d: expected exit 0 - not a violation under the reading the check adopted, DESIGN 12)"
   echo "$id ($prop): exit=$rc violations=$nv :: $(echo "$out" | grep -v '^VIOLATION\|^KNOWN' | tail -1 | cut -c1-120)"
   git -C /repo worktree remove --force $wt
